@@ -151,7 +151,12 @@ SnapOIF      == \E c \in CID : \E e \in {x \in EventsFor(c, orders[c]) : x.a = "
 SnapOpenA    == \E c \in CID : \E e \in {x \in EventsFor(c, orders[c]) : x.a = "Snap" /\ x.k = "Open"} : Apply(e)
 SnapCIFA     == \E c \in CID : \E e \in {x \in EventsFor(c, orders[c]) : x.a = "Snap" /\ x.k = "CIF"}  : Apply(e)
 
-Next == RecordOpen \/ RecordCancel \/ CancelResp \/ SnapInactive \/ SnapOIF \/ SnapOpenA \/ SnapCIFA
+\* the order table is stored and restored (serialised state shipped to a replica / kept across a
+\* restart): the same table
+Persist == /\ UNCHANGED orders
+           /\ last' = Ev("Persist", "", "", 0, 0, NoMeta, FALSE)
+
+Next == RecordOpen \/ RecordCancel \/ CancelResp \/ SnapInactive \/ SnapOIF \/ SnapOpenA \/ SnapCIFA \/ Persist
 
 Spec == Init /\ [][Next]_vars
 
